@@ -232,7 +232,27 @@ fn emit_case(out: &mut Out, rng: &mut Rng, models: &[TableDef], history: &[Migra
                     Err(_) => ok8 = false,
                 }
             }
-            oracles.insert("c08".into(), json!({"ok": ok8}));
+            // repeated evaluation in one process (fresh hasher states): normalisation and planning must not vary
+            let mut stable = true;
+            for t in models {
+                let first = t.normalize().ok();
+                for _ in 0..4 {
+                    if t.normalize().ok() != first {
+                        stable = false;
+                    }
+                }
+            }
+            for _ in 0..3 {
+                match diff_schemas(b, models) {
+                    Ok(d) => {
+                        if d.actions != p.actions {
+                            stable = false;
+                        }
+                    }
+                    Err(_) => stable = false,
+                }
+            }
+            oracles.insert("c08".into(), json!({"ok": ok8 && stable, "permutation_invariant": ok8, "repeatable": stable}));
             // O-C14: (a) the planner is equivariant under literal renaming; (b) with_prefix equals literal renaming
             let pfx = "app_";
             let lb: Vec<TableDef> = b.iter().map(|t| gener::literal_table(pfx, t)).collect();
